@@ -679,4 +679,202 @@ theorem inv_updateId {s : State} (h : Inv s) (old new : Cid) (hn : new < s.next)
       · exact hn
       · exact h.fresh.1 x hx
 
+
+/-! ## several removals in a row, `_update_world_components`, the `coords` setter -/
+
+structure RemAllOk (s : State) (ids : List Cid) (r : Res) (R : List Cid) : Prop where
+  state : r.1 = { s with comps := s.comps.filter (fun x => !R.contains x.cid) }
+  msgs : r.2 = announceRemoves s R
+  nodup : R.Nodup
+  sub : ∀ x ∈ R, x ∈ cids s.comps
+  kinds : ∀ x ∈ R, x ∈ ids ∨ ∃ y ∈ s.comps, y.cid = x ∧ y.kind.isDerived = true
+  complete : ∀ c ∈ ids, c ∈ cids s.comps → c ∈ R
+
+theorem announceRemoves_append (s : State) (a b : List Cid) :
+    announceRemoves s (a ++ b) = announceRemoves s a ++ announceRemoves s b := by
+  simp only [announceRemoves]
+  split <;> simp
+
+theorem removeAll_ok : ∀ (ids : List Cid) (s : State), ∃ R, RemAllOk s ids (removeAll s ids) R
+  | [], s => ⟨[], by simp [removeAll], by simp [removeAll, announceRemoves], List.nodup_nil, by simp, by simp, by simp⟩
+  | c :: rest, s => by
+    have hr := removeRec_ok s.comps.length s.comps c
+    generalize hrr : removeRec s.comps.length s.comps c = r at hr
+    let s1 : State := { s with comps := r.1 }
+    obtain ⟨R2, h2⟩ := removeAll_ok rest s1
+    have hs1 : s1.comps = s.comps.filter (fun x => !r.2.contains x.cid) := hr.eq
+    refine ⟨r.2 ++ R2, ?_, ?_, ?_, ?_, ?_, ?_⟩
+    · simp only [removeAll, Res.bind, removeComp, hrr]
+      rw [h2.state, hs1, List.filter_filter]
+      congr 2
+      funext x
+      simp only [List.contains_append, Bool.not_or, Bool.and_comm]
+    · simp only [removeAll, Res.bind, removeComp, hrr]
+      rw [h2.msgs, announceRemoves_append]
+      rfl
+    · rw [List.nodup_append]
+      refine ⟨hr.nodup, h2.nodup, ?_⟩
+      intro a ha b hb hab
+      subst hab
+      have := h2.sub a hb
+      rw [hs1] at this
+      obtain ⟨y, _, hy, hp⟩ := mem_cids_filter this
+      simp only [Bool.not_eq_true', List.contains_eq_mem, decide_eq_false_iff_not] at hp
+      exact hp (hy ▸ ha)
+    · intro x hx
+      rcases List.mem_append.1 hx with hx | hx
+      · exact hr.sub x hx
+      · have := h2.sub x hx
+        rw [hs1] at this
+        obtain ⟨y, hy, hyx, _⟩ := mem_cids_filter this
+        exact List.mem_map.2 ⟨y, hy, hyx⟩
+    · intro x hx
+      rcases List.mem_append.1 hx with hx | hx
+      · rcases hr.kinds x hx with rfl | hk
+        · exact Or.inl List.mem_cons_self
+        · exact Or.inr hk
+      · rcases h2.kinds x hx with hk | ⟨y, hy, hyx, hyd⟩
+        · exact Or.inl (List.mem_cons_of_mem _ hk)
+        · rw [hs1] at hy
+          exact Or.inr ⟨y, (List.mem_filter.1 hy).1, hyx, hyd⟩
+    · intro c' hc' hmem
+      rcases List.mem_cons.1 hc' with rfl | hc'
+      · apply List.mem_append_left
+        have hne : s.comps.length = (s.comps.length - 1) + 1 := by
+          have : s.comps ≠ [] := by intro he; rw [he] at hmem; cases hmem
+          have := List.length_pos_of_ne_nil this
+          omega
+        rw [← hrr, hne]
+        exact removeRec_mem hmem
+      · by_cases hin : c' ∈ r.2
+        · exact List.mem_append_left _ hin
+        · apply List.mem_append_right
+          apply h2.complete c' hc'
+          rw [hs1]
+          simp only [cids, List.mem_map, List.mem_filter] at hmem ⊢
+          obtain ⟨y, hy, hyc⟩ := hmem
+          exact ⟨y, ⟨hy, by simpa [hyc] using hin⟩, hyc⟩
+
+/-- `_update_world_components` on a consistent non-empty dataset whose `coords` has just been set
+to `v`. -/
+theorem inv_rebuildWorld {s : State} (h : Inv s) (hne : s.comps ≠ []) (v : Option Nat) :
+    Inv (updateWorld { s with coords := v } s.shape.length).1 := by
+  obtain ⟨R, hR⟩ := removeAll_ok s.world { s with coords := v }
+  have hns := inv_shape_ne h hne
+  -- the removed ids are world components or derived ones
+  have hRk : ∀ x ∈ s.comps, x.cid ∈ R → (∃ a, x.kind = .world a) ∨ x.kind.isDerived = true := by
+    intro x hx hxr
+    rcases hR.kinds _ hxr with hw | ⟨y, hy, hyx, hyd⟩
+    · left
+      have hw' := h.world
+      split at hw'
+      · obtain ⟨i, hi, hget⟩ := List.getElem_of_mem hw
+        obtain ⟨c, hc, hcid, hk⟩ := hw'.2.1 i hi
+        have : c = x := cid_inj h.nodup hc hx (by rw [hcid, hget])
+        subst this
+        exact ⟨i, hk⟩
+      · rw [hw'.1] at hw; cases hw
+    · right
+      have : y = x := cid_inj h.nodup hy hx hyx
+      subst this; exact hyd
+  -- every world component is removed
+  have hWgone : ∀ x ∈ s.comps.filter (fun x => !R.contains x.cid), ∀ a, x.kind ≠ .world a := by
+    intro x hx a hk
+    obtain ⟨hx1, hx2⟩ := List.mem_filter.1 hx
+    have hw' := h.world
+    split at hw'
+    · have := hw'.2.2 x hx1 a hk
+      have hmem : x.cid ∈ s.world := List.mem_of_getElem? this
+      have := hR.complete _ hmem (List.mem_map.2 ⟨x, hx1, rfl⟩)
+      simp only [Bool.not_eq_true', List.contains_eq_mem, decide_eq_false_iff_not] at hx2
+      exact hx2 this
+    · exact hw'.2 x hx1 a hk
+  have hkeepP : ∀ c ∈ s.comps, ∀ a, c.kind = Kind.pixel a → (!R.contains c.cid) = true := by
+    intro c hc a hk
+    simp only [Bool.not_eq_true', List.contains_eq_mem, decide_eq_false_iff_not]
+    intro hm
+    rcases hRk c hc hm with ⟨b, hb⟩ | hd
+    · rw [hk] at hb; cases hb
+    · rw [hk] at hd; cases hd
+  have hfl : ∀ c ∈ cids (s.comps.filter (fun x => !R.contains x.cid)), c < s.next := by
+    intro c hc
+    obtain ⟨y, hy, rfl, _⟩ := mem_cids_filter hc
+    exact h.fresh.1 _ (List.mem_map.2 ⟨y, hy, rfl⟩)
+  have hnd : (cids (s.comps.filter (fun x => !R.contains x.cid))).Nodup := by
+    simp only [cids]
+    exact (List.Sublist.map _ List.filter_sublist).nodup (by simpa [cids] using h.nodup)
+  have hpixF := famOk_filter h.pixel (fun x => !R.contains x.cid) hkeepP
+  simp only [updateWorld, Res.bind, hR.state]
+  cases v with
+  | none =>
+    simp only [Option.isSome_none, Bool.false_eq_true, if_false]
+    refine ⟨hnd, ?_, hpixF, ?_, ?_, ?_, ?_⟩
+    · intro c hc; exact h.shapes c (List.mem_filter.1 hc).1
+    · simp only [Option.isSome_none, Bool.false_eq_true, if_false]
+      exact ⟨trivial, hWgone⟩
+    · intro hs; exact absurd hs hns
+    · simp
+    · exact ⟨hfl, h.fresh.2⟩
+  | some tok =>
+    simp only [Option.isSome_some, if_true, newWorlds, List.nil_append]
+    have hfam : (List.range s.shape.length).map (fun i => (⟨s.next + i, .world i, [], 0⟩ : Comp))
+        = famComps s.next .world s.shape.length := rfl
+    have hids : (List.range s.shape.length).map (fun x => s.next + x) = famIds s.next s.shape.length := rfl
+    rw [hfam, hids]
+    have hWk : ∀ x ∈ famComps s.next .world s.shape.length, ∃ i, x.kind = .world i ∧ x.cid = s.next + i ∧ i < s.shape.length := by
+      intro x hx
+      simp only [famComps, List.mem_map, List.mem_range] at hx
+      obtain ⟨i, hi, rfl⟩ := hx
+      exact ⟨i, rfl, rfl, hi⟩
+    refine ⟨?_, ?_, ?_, ?_, ?_, ?_, ?_⟩
+    · simp only [cids, List.map_append]
+      have e1 : List.map (fun x => x.cid) (famComps s.next Kind.world s.shape.length) = famIds s.next s.shape.length :=
+        cids_famComps _ _ _
+      rw [e1, List.nodup_append]
+      refine ⟨by simpa [cids] using hnd, famIds_nodup _ _, ?_⟩
+      intro a ha b hb hab
+      subst hab
+      have := hfl a (by simpa [cids] using ha)
+      have := mem_famIds.1 hb
+      omega
+    · intro c hc hk
+      rcases List.mem_append.1 hc with hc | hc
+      · exact h.shapes c (List.mem_filter.1 hc).1 hk
+      · obtain ⟨i, hi, _⟩ := hWk c hc; rw [hk] at hi; cases hi
+    · apply famOk_append hpixF
+      intro c hc a hk
+      obtain ⟨i, hi, _⟩ := hWk c hc; rw [hk] at hi; cases hi
+    · simp only [Option.isSome_some, if_true]
+      have := famOk_range (s.comps.filter (fun x => !R.contains x.cid)) [] s.next s.shape.length .world world_inj
+        hWgone (by simp)
+      simpa using this
+    · intro hs; exact absurd hs hns
+    · simp
+    · refine ⟨?_, fun c hc => by have := h.fresh.2 c hc; simp only; omega⟩
+      intro c hc
+      simp only [cids, List.map_append, List.mem_append] at hc
+      rcases hc with hc | hc
+      · have := hfl c (by simpa [cids] using hc); simp only; omega
+      · have e1 : List.map (fun x => x.cid) (famComps s.next Kind.world s.shape.length) = famIds s.next s.shape.length :=
+          cids_famComps _ _ _
+        rw [e1] at hc
+        have := mem_famIds.1 hc; simp only; omega
+
+theorem inv_setCoords {s : State} (h : Inv s) (v : Option Nat) : Inv (setCoords s v).1 := by
+  simp only [setCoords]
+  split
+  · split
+    · rename_i he
+      have he' : s.comps = [] := by simpa using he
+      obtain ⟨hs, hp, hw, hl⟩ := inv_empty h he'
+      refine ⟨h.nodup, h.shapes, h.pixel, ?_, h.empty, ?_, h.fresh⟩
+      · simp only
+        split
+        · rw [he', hw, hs]; exact ⟨rfl, by simp, by simp⟩
+        · rw [he']; exact ⟨hw, by simp⟩
+      · simp only [hl, hs]; simp
+    · rename_i hne
+      exact inv_rebuildWorld h (by simpa using hne) v
+  · exact h
+
 end GlueVerif.Lemmas.C17
